@@ -184,7 +184,7 @@ def case_cli(run, i):
     with run.monitor_scope():
         tabio.write(cna, inf)
     center_at = [0.25, -0.5][(i // 4) % 2] if (purity >= 1.0 and i % 4 == 3) else None     # with a purity the model's log2 must reach do_call unshifted
-    argv = ["call", inf, "-m", "clonal", "--ploidy", str(ploidy), "-o", outf, "-x", cli_plumb.sex_arg(female, i)]
+    argv = ["call", inf, "-m", "clonal", "--ploidy", str(ploidy), "-o", outf, "-x", cli_plumb.sex_arg(female, 3 * i + 3)]     # cycles through all four spellings within every residue class of i used above
     if purity < 1.0 or i % 3 == 0:
         argv += ["--purity", repr(purity)]
     if male_ref:
